@@ -13,10 +13,12 @@ def discover():
     """Every check module under gvlib/checks that defines REG (a dict with the reg() keyword arguments) is claimed."""
     import importlib, pkgutil
     from . import checks
+    # Only the main session edits claimed.txt: a check is claimed once it is clean on the unchanged tree and triaged.
+    claimed = set(open(os.path.join(os.path.dirname(__file__), "claimed.txt")).read().split())
     for m in sorted(pkgutil.iter_modules(checks.__path__), key=lambda m: m.name):
         mod = importlib.import_module(f"gvlib.checks.{m.name}")
         r = getattr(mod, "REG", None)
-        if r:
+        if r and m.name.upper() in claimed:
             reg(m.name.upper(), **r)
 
 
